@@ -12,7 +12,7 @@ T = "thorough"
 
 PROPS = {
     "C14": dict(
-        suites=[("values", {Q: 600, T: 60000})],
+        suites=[("values", {Q: 2000, T: 60000})],
         rule="values suite, capture cases only: real ValueSet/Record/Event objects over dynamic field sets "
              "(arity 0, 32, 1..8; duplicate names, also with signed-zero pairs and identical values; every primitive kind incl. Empty; "
              "error chains with boxed and with inline (same-address) sources) captured through "
@@ -23,7 +23,7 @@ PROPS = {
         assumptions=["ValueSet visiting order = array order (tracing-core)"],
     ),
     "C15": dict(
-        suites=[("values", {Q: 600, T: 60000})],
+        suites=[("values", {Q: 2000, T: 60000})],
         rule="values suite: exhaustive insert/get sequences over 3 names x 3 values up to length 3 (quick) / 4 "
              "(thorough), random operation sequences (insert/get/extend/collect/JSON text/serde MapDeserializer with exact size hint/"
              "iterators with every positional adapter: nth, nth_back, rev().nth, rev().skip, last, len/size_hint/count, both ends; "
@@ -65,7 +65,7 @@ MANIFEST_TEXT = {
 }
 
 PROPS["C20"] = dict(
-    suites=[("normalize", {Q: 400, T: 40000})],
+    suites=[("normalize", {Q: 1500, T: 40000})],
     rule="normalize suite: exhaustive sequences of announcements/uses over 3 call-site ids up to length 4 (quick) / 6 "
          "(thorough); random sender-like streams (1..6 call sites; random 64-bit, address-like or small dense ids that may coincide with the canonical ones; duplicate announcements at "
          "arbitrary positions, uses before announcement) up to 30/120 events; each case is also run under two injective "
@@ -96,7 +96,7 @@ _RECV_RULE = ("receiver suite: streams from a guest simulator (announcements inc
               "retry-after-discard shapes, wide call sites with 33..130 accumulated values across a restart; exhaustive sequences "
               "over a 15-symbol alphabet up to length 3 (quick) / 5 (thorough). ")
 for _p in ["C02", "C03", "C04", "C06", "C07", "C08"]:
-    PROPS[_p] = dict(suites=[("receiver", {Q: 500, T: 40000})], rule=_RECV_RULE)
+    PROPS[_p] = dict(suites=[("receiver", {Q: 1500, T: 40000})], rule=_RECV_RULE)
 PROPS["C02"]["rule"] += "non-trivial = >= 1 cut with an alive guest span and >= 4 events; distinct by input text"
 PROPS["C03"]["rule"] += "non-trivial = as C02 (cut with alive span), counted over cases; restored presentations are counted in input_distribution"
 PROPS["C04"]["rule"] += "non-trivial = as C02; cases with a span entered at the abort point are counted in input_distribution (nt:entered-at-abort)"
@@ -118,7 +118,7 @@ def _c11_post(prop, results, root):
     return fails, {"schema_validated_documents": int(n[0].split()[1]) if n else 0}
 
 PROPS["C11"] = dict(
-    suites=[("wire", {Q: 600, T: 60000})],
+    suites=[("wire", {Q: 1500, T: 60000})],
     post=_c11_post,
     rule="wire suite: grammar-generated events (every variant), persisted span sets and metadata sets; ids from "
          "{0, u64::MAX, random 64-bit, small}; values of every kind with 128-bit extremes, 64-bit boundaries, finite floats "
@@ -201,7 +201,7 @@ _CAP_RULE = ("capture suite: well-formed single-threaded programs (as C01) drive
              "the filter); non-trivial = >= 3 captured spans, depth >= 2 and "
              ">= 1 captured event in the first layer; distinct by input text")
 for _p in ["C05", "C16", "C17"]:
-    PROPS[_p] = dict(suites=[("capture", {Q: 600, T: 40000})], rule=_CAP_RULE)
+    PROPS[_p] = dict(suites=[("capture", {Q: 1500, T: 40000})], rule=_CAP_RULE)
 
 PROPS["C04"]["extra_modules"] = ["TT.Props.C04Retry"]
 
@@ -225,7 +225,7 @@ _PROG_RULE = ("prog suite: well-formed single-threaded guest programs at subscri
               "StrictHost, under the real TracingEventSender, and tunnelled (sender -> serde_json -> receiver -> StrictHost; one program in "
               "six is tunnelled without serialization and then records NaN and the infinities too); "
               "non-trivial = >= 2 spans, >= 1 enter, >= 1 event or record and one of {explicit parent, clone, follows-from}; distinct by input text")
-PROPS["C12"] = dict(suites=[("prog", {Q: 400, T: 30000})], rule=_PROG_RULE + "; plus 2..16 threads x 5..200 span creations through one shared sender, and the span-id counter preset near 2^32 through the cfg hook")
+PROPS["C12"] = dict(suites=[("prog", {Q: 1200, T: 30000})], rule=_PROG_RULE + "; plus 2..16 threads x 5..200 span creations through one shared sender, and the span-id counter preset near 2^32 through the cfg hook")
 MANIFEST_TEXT["C12"] = dict(
     text="Theorems (all programs, no bound on length): the sender's stream equals the program's own operation log mapped call by call to "
          "events with the operation's span ids, explicit parent and captured values (C12_one_event_per_call); every call site used was "
@@ -238,7 +238,7 @@ MANIFEST_TEXT["C12"] = dict(
     note=_BASE_NOTE + "Environment modelled, not verified: the `tracing` front end (one subscriber call per span operation, registration before first use, enabled before new_span/event, child_of(None)=new_root) and AtomicU32::fetch_add as one atomic step.",
     technique="Lean 4 proof (lock-step simulation of subscribers, invariants over programs, interleaving model) + differential correspondence")
 
-PROPS["C01"] = dict(suites=[("prog", {Q: 400, T: 30000})], rule=_PROG_RULE)
+PROPS["C01"] = dict(suites=[("prog", {Q: 1200, T: 30000})], rule=_PROG_RULE)
 MANIFEST_TEXT["C01"] = dict(
     text="Theorems (all well-formed single-threaded programs, any length, any arena history): every event of the sender's stream is "
          "accepted (C01_accepts); call for call the host receives through sender -> receiver what it receives natively, with values "
@@ -253,17 +253,17 @@ MANIFEST_TEXT["C01"] = dict(
          "Tied to the code by running every program natively and tunnelled (real sender, serde_json, real receiver) on two StrictHosts.",
     note=_RECV_NOTE + "Also environment: the `tracing` front end at subscriber-call level (enabled before new_span/event, registration before first use, child_of(None)=new_root).",
     technique="Lean 4 proof (simulation native host vs sender∘receiver over the program's call log) + differential correspondence (native vs tunnelled)")
-PROPS["C13"] = dict(suites=[("prog", {Q: 400, T: 30000}), ("receiver", {Q: 300, T: 6000})], rule=_PROG_RULE + "; every case runs under a host level filter (0..4) on both the native and the tunnelled host; "
+PROPS["C13"] = dict(suites=[("prog", {Q: 1200, T: 30000}), ("receiver", {Q: 900, T: 6000})], rule=_PROG_RULE + "; every case runs under a host level filter (0..4) on both the native and the tunnelled host; "
     "receiver suite, C13 cases: well-formed streams with call sites of all levels under a host level filter (0..4), cut by persist keep / lose "
     "at quiescent and non-quiescent points (no valid event may be rejected, every event the host enables is delivered)")
-PROPS["C09"] = dict(suites=[("receiver", {Q: 150, T: 5000})],
+PROPS["C09"] = dict(suites=[("receiver", {Q: 250, T: 5000})],
     rule="receiver suite, C09 cases: a base description (0/3/8/64 fields) and 11 variants differing in exactly one attribute (kind, level, "
          "name incl. empty, target, module path presence, file incl. Unicode, line, field added / order / one name), announced "
          "repeatedly under fresh and reused ids across persist keep/lose/new-host/discard cycles, each used once so that the metadata "
          "object shows; interned-string and metadata counts read through the cfg hook; non-trivial = a cut with an alive span or >= 2 "
          "rounds (every case has >= 2 rounds); half of the cases run with the arena's hash degraded to a constant through the cfg hook "
          "(all descriptions in one bucket, so eq_metadata alone keeps them apart; marked descriptions, disjoint from the others); distinct by input text")
-PROPS["C10"] = dict(suites=[("arenaconc", {Q: 60, T: 2000})],
+PROPS["C10"] = dict(suites=[("arenaconc", {Q: 120, T: 2000})],
     rule="arenaconc suite: all interleavings (at lock-acquisition granularity, forced through the cfg-guarded yield point between the "
          "read-locked scan and the write-locked insertion) of 2 threads (quick) / 2-3 threads (thorough) x 1-2 announcements for equal / "
          "different / mixed work shapes; random work (2-4 threads x 1-3 announcements from a pool of 3 descriptions) under random, "
@@ -309,7 +309,7 @@ MANIFEST_TEXT["C17"] = dict(
     note=_CAP_NOTE + "Cross-storage comparisons (ptr::eq on the storage) are checked by the harness only.",
     technique="Lean 4 proof (invariant preservation; fuel-independence and traversal lemmas) + differential correspondence + law cross-checks on the real API")
 
-PROPS["C18"] = dict(suites=[("pred", {Q: 600, T: 6000})],
+PROPS["C18"] = dict(suites=[("pred", {Q: 2000, T: 6000})],
     rule="pred suite: storages from generated programs (single capture layer, no filter; site names / targets / field values aligned with "
          "the predicate atoms); predicate instances are compiled into the harness from a generated table (types are static in Rust): "
          "47 atoms per side (level exact / LevelFilter incl. OFF, ERROR, TRACE; target path / custom; name incl. raw identifiers; field "
@@ -440,7 +440,7 @@ def _proj_c13(suite, lines):
 
 PROPS["C13"]["project"] = _proj_c13
 
-PROPS["C19"] = dict(suites=[("capconc", {Q: 60, T: 1500})],
+PROPS["C19"] = dict(suites=[("capconc", {Q: 120, T: 1500})],
     rule="capconc suite: 2-3 threads under forced schedules (one operation at a time executed by the designated real thread; random "
          "interleavings of per-thread programs of up to 8 ops, with 0-2 shared spans created by the main thread that threads may enter, "
          "record on, follow or use as explicit parents) compared with the interleaving model; 2-16 free-running real threads with "
